@@ -101,3 +101,38 @@ static void Str__ctor__char_ptr_std_allocator_char_ref(struct Str *d, const char
   if (c == g_cwdbuf) { str_fresh(d, g_cwdbuf_len); d->id = g_cwdbuf_id; }
   else { size_t l = nondet_size(); str_fresh(d, l); }
 }
+
+/* ---- directory streams (assumed contract) ---- */
+static _Bool Path__exists(struct Path *p) { return g_exists; }
+static struct DIR *X_opendir__char_ptr(const char *c) {
+  if (!g_exists || !g_isdir) return 0;
+  g_dir_open = 1; g_dir_pos = 0; return &g_dir;
+}
+static struct dirent *X_readdir__DIR_ptr(struct DIR *d) {
+  __CPROVER_assert(d == &g_dir && g_dir_open, "C18 readdir is given an open directory stream");
+  if (g_dir_pos < g_nent) { struct dirent *e = &g_ents[g_dir_pos]; g_dir_pos++; __CPROVER_assume(e->d_name[255] == 0); return e; }
+  return 0;
+}
+static int X_closedir__DIR_ptr(struct DIR *d) {
+  __CPROVER_assert(d == &g_dir && g_dir_open, "C18 closedir is given an open directory stream");
+  g_dir_open = 0; g_closedir_calls++; return 0;
+}
+/* strcmp against a literal of at most two characters ("." and ".."): the comparison ends within three characters */
+static int X_strcmp__char_ptr_char_ptr(const char *a, const char *b) {
+  __CPROVER_assert(b[0] == 0 || b[1] == 0 || b[2] == 0, "MODEL-LIMIT strcmp is modelled against literals of at most two characters");
+  if (a[0] != b[0]) return (unsigned char)a[0] < (unsigned char)b[0] ? -1 : 1;
+  if (a[0] == 0) return 0;
+  if (a[1] != b[1]) return (unsigned char)a[1] < (unsigned char)b[1] ? -1 : 1;
+  if (a[1] == 0) return 0;
+  if (a[2] != b[2]) return (unsigned char)a[2] < (unsigned char)b[2] ? -1 : 1;
+  return 0;
+}
+static void PathList__ctor_default(struct PathList *l) { l->len = 0; }
+static void PathList__ctor_move(struct PathList *l, struct PathList *o) { l->len = o->len; o->len = 0; }
+static void PathList__dtor(struct PathList *l) { }
+static struct Path g_emplaced;
+static struct Path *PathList__emplace_front(struct PathList *l, char **name) {
+  if (*name == &g_ents[g_e].d_name[0]) g_e_listed++;
+  l->len++;
+  return &g_emplaced;
+}
